@@ -5,6 +5,7 @@
      event ::= <scope>:<attempt>      scope ::= T (top level) | F (inside func(){..}()) | G (two functions deep) | L (inside for 2 {..})
      attempt ::= AS,<name>,<expr>,<0|1 define> | IN,<name>,<delta>,<0|1 prefix> | IX,<name>,<key>,<val> | DE,<name>,<key> | DL,<name>
                | FI,<name>,<a>,<b> | FL,<name>,<count>.<val>... | CL,<name>,<val> | RD,<name>
+               | CA,<name>,<y>,<key>,<val>   (func(name){y[key]=val;name}(y))
      expr ::= <val> | N:<y> (y) | S:<y>:<l>:<r> (y[l:r]) | W:<y> ([y]) | X:<y>:<key> (y[key]) | R:<y> (func(){y}())
             | P:<y>:<val> (y+[val]) | C:<y>:<key>:<val> (func(pp){pp[key]=val;pp}(y))
      val  ::= i<int> | f<q> (the float q/4) | z (-0.0) | n | s<hex> | b0 | b1 | a<count>.<val>... | m<count>.<key>.<val>...
@@ -69,6 +70,7 @@ let parse_attempt s =
        AForList (name_of n, go (int_of_string c) ts [])
      | [] -> failwith "FL")
   | ["CL"; n; v] -> ACall (name_of n, parse_cval v)
+  | ["CA"; n; y; k; v] -> ACallAlias (name_of n, name_of y, parse_key_tok k, parse_cval v)
   | ["RD"; n] -> ARead (name_of n)
   | _ -> failwith ("bad attempt " ^ s)
 let parse_event s =
